@@ -528,11 +528,12 @@ class _BBRepr(Repr):
     """
     def __init__(self):
         super().__init__()
-        # turn up all the length limits very high
+        # turn off all the length limits (a shortened literal is another
+        # literal: the repr of a T / Path is meant to evaluate to the same thing)
         for name in self.__dict__:
             if not isinstance(getattr(self, name), int):
                 continue
-            setattr(self, name, 1024)
+            setattr(self, name, sys.maxsize)
 
     def repr1(self, x, level):
         ret = Repr.repr1(self, x, level)
